@@ -13,7 +13,7 @@ RULE = ("Voronoi (straight), Moebius-image (exact arcs, |phi| from 1e-9 to ~1.2 
         "random per interface, uniform or uneven spacing); both circle fits; ignore_four on/off; random labels and "
         "orientations. distinct = (family, cells, junctions used, unknowns, points set, fit, ignore_four, pose mode); "
         "non-trivial = at least one junction equation")
-MIN_DECISIVE = {"quick": 150, "thorough": 2000}
+MIN_DECISIVE = {"quick": 120, "thorough": 1500}
 REQUIRED_COUNTERS = ["post:ForceMatrix", "coef:compared", "zero:entries"]
 TECHNIQUE = ("runtime contract on ForceMatrix.__post_init__: per-coefficient comparison with closed-form tangents of "
              "generated arc/line tissues; F-MIRROR classified by its closed-form model")
@@ -36,7 +36,7 @@ def anchors():
 def cases(seed, tier):
     q = tier == "quick"
     out = []
-    fams = ["mob"] * 4 + ["vor"] * 2 + ["arc"] * 2 + ["lat-square", "lat-brick", "lat-hex"]
+    fams = ["mob"] * 4 + ["vor"] * 2 + ["arc"] * 2 + ["lat-square", "lat-brick", "lat-hex", "vor4", "mob4"]
     n = 44 if q else 660
     for i in range(n):
         out.append({"fam": fams[i % len(fams)], "seed": [seed, 2, i], "count": 3})
@@ -67,7 +67,7 @@ def _install():
         at, r, fit, ign = c["at"], c["r"], c["fit"], c["ignore_four"]
         pmap, inv = scen.physical_maps(r)
         # (a) unknowns = internal interfaces
-        ref_keys = fb.internal_keys(at)
+        ref_keys = fb.internal_keys(at, r.ks)
         got_keys = []
         for p in self.big_edges_to_use:
             k = pmap.get(tuple(p))
@@ -79,7 +79,7 @@ def _install():
             mon.fail("unknown-set", "exactly one unknown per internal interface", n_got=len(got_keys), n_ref=len(ref_keys))
             return True
         # (b) equations = junctions in >=3 cells with >=3 internal interfaces
-        ref_j = fb.used_junctions(at, ignore_four=ign)
+        ref_j = fb.used_junctions(at, ignore_four=ign, ks=r.ks)
         got_j = sorted(inv.get(v, ("?", v)) for v in self.map_vid_to_row)
         if got_j != sorted(ref_j):
             miss = [j for j in ref_j if j not in got_j]
@@ -162,9 +162,9 @@ def _one(rng, fam, at, mon, sigs, hist):
         at, posed = scen.pose(rng, at)
     kmode = int(rng.integers(3))
     k = int(rng.integers(0, 16)) if kmode == 0 else ((0, 15) if kmode == 1 else (1, 6))
-    if fam in ("mob", "arc") and kmode == 0 and k == 0:
+    if fam in ("mob", "arc", "mob4") and kmode == 0 and k == 0:
         k = 1
-    if fam in ("mob", "arc") and kmode == 1:
+    if fam in ("mob", "arc", "mob4") and kmode == 1:
         k = (1, 15)
     fit = ["dlite", "taubinSVD"][int(rng.integers(2))]
     ign = bool(rng.random() < 0.3)
